@@ -168,7 +168,7 @@ class Slice:
         if d.kind == "stmt" and isinstance(a, (ast.Assign, ast.AnnAssign)) and a.value is not None:
             tgt = a.targets[0] if isinstance(a, ast.Assign) else a.target
             if isinstance(tgt, ast.Name):
-                if self._derives_state(d, name) and name in ("ps",):
+                if self._derives_state(d, name) and any(isinstance(x, ast.Attribute) and x.attr == "state" and src(x.value) == "self" for x in ast.walk(a.value)):
                     self.add("STATE", name + " (tensor view of the stored state)")
                     return
                 return self.follow(a.value, d, depth)
@@ -181,10 +181,20 @@ class Slice:
             return False
         v = a.value
         names = {x.id for x in ast.walk(v) if isinstance(x, ast.Name)}
+
+        def only_views(v) -> bool:
+            for x in ast.walk(v):
+                if is_abs(x) is not None or call_np(x) in ("sum", "diag", "diagonal", "real", "trace", "square", "abs", "linalg.norm"):
+                    return False
+                if isinstance(x, ast.Attribute) and x.attr in ("real", "imag"):
+                    return False
+                if isinstance(x, ast.BinOp) and isinstance(x.op, (ast.Pow, ast.Div)):
+                    return False
+            return True
         if any(isinstance(x, ast.Attribute) and x.attr == "state" and src(x.value) == "self" for x in ast.walk(v)):
-            return not any(is_abs(x) is not None or call_np(x) == "sum" for x in ast.walk(v))
+            return only_views(v)
         if name in names:
-            return not any(is_abs(x) is not None or call_np(x) == "sum" for x in ast.walk(v))
+            return only_views(v)
         return False
 
     def classify_einsum(self, s: ast.AST, call: ast.Call, at: Node) -> Tuple[str, str]:
@@ -214,7 +224,8 @@ class Slice:
         if single_dropped:
             return ("REDUCE", f"einsum {lit} sums over {''.join(single_dropped)}")
         if rep:
-            return ("PTRACE-LIT", lit)
+            opn = call.args[1].id if len(call.args) > 1 and isinstance(call.args[1], ast.Name) else "?"
+            return ("PTRACE-LIT", f"{lit}@{opn}")
         return ("SHAPE", lit)
 
 
@@ -313,8 +324,9 @@ def samp_e(repo: Repo) -> List[Ob]:
                     inner = core[i + 1:]
                     for (prim, detail) in sl.chain:
                         if prim == "PTRACE-LIT":
-                            lay = _layout_for_literal(fi, cfg, node, detail)
-                            for one in detail.split("|"):
+                            for one_full in detail.split("|"):
+                                one, _, opn = one_full.partition("@")
+                                lay = _tensor_layout(fi, cfg, node, opn) if opn and opn != "?" else None
                                 okp = _ptrace_literal_ok(one, lay)
                                 if okp is False:
                                     verdict = f"`{one}` does not trace the (row, column) pair of one subsystem under the tensor's {lay} layout"
@@ -558,8 +570,10 @@ def collapse(repo: Repo) -> List[Ob]:
         raise AnalysisError("COLLAPSE: post-measurement writes of ProductState.measure not found")
     # sequential conditioning: the tensor is sliced by the drawn outcome inside the per-subsystem loop
     for loop in [x for x in walk_no_nested(ps.node) if isinstance(x, ast.For) and "states" in src(x.iter)]:
-        sl = [x for x in ast.walk(loop) if isinstance(x, ast.Assign) and src(x.targets[0]) == "ps" and "indices" in src(x.value)]
-        idx = [x for x in ast.walk(loop) if isinstance(x, ast.Assign) and isinstance(x.targets[0], ast.Subscript) and src(x.targets[0].value) == "indices" and "outcomes" in src(x.value)]
+        idx = [x for x in ast.walk(loop) if isinstance(x, ast.Assign) and isinstance(x.targets[0], ast.Subscript) and isinstance(x.targets[0].value, ast.Name) and "outcomes" in src(x.value)]
+        idx_names = {x.targets[0].value.id for x in idx}
+        sl = [x for x in ast.walk(loop) if isinstance(x, ast.Assign) and isinstance(x.targets[0], ast.Name) and isinstance(x.value, ast.Subscript)
+              and src(x.value.value) == x.targets[0].id and any(isinstance(y, ast.Name) and y.id in idx_names for y in ast.walk(x.value.slice))]
         good = bool(sl) and bool(idx)
         lvl = "Vector" if "measure_vector" in src(loop) else "Matrix"
         (obs.append(ok("COLLAPSE", ps, f"sequential-conditioning@{lvl}", ("C04", "C05"), loop, "the tensor is sliced by each drawn outcome before the next subsystem's marginal is computed")) if good else
@@ -699,6 +713,8 @@ def pair(repo: Repo) -> List[Ob]:
          obs.append(bad("PAIR", fi, f"kron-order@{lvl}", P, k, f"kron({', '.join(order)}) but indices {ext}: the member order recorded in the indices is not the tensor order")))
     # CompositeEnvelope.combine: kron(acc, X) paired with state_order.extend/append of X's members
     ce = repo.func("CompositeEnvelope.combine")
+    from ..types import Typer
+    _typer = Typer(repo, ce)
     acc_name = None
     for n in walk_no_nested(ce.node):
         if isinstance(n, ast.Assign) and isinstance(n.value, ast.Call) and call_np(n.value) == "kron" and len(n.value.args) == 2 and isinstance(n.targets[0], ast.Name):
@@ -758,7 +774,7 @@ def pair(repo: Repo) -> List[Ob]:
             how, arg = upd
             t = src(arg)
             good = False
-            if owner.endswith("product_state") or owner in ("product_state", "ps", "p"):
+            if _typer.classes(ast.parse(owner, mode="eval").body) == {"ProductState"}:
                 good = how == "extend" and t == f"{owner}.state_objs"
             elif owner.endswith(".envelope"):
                 good = how == "extend" and "indices" in t
@@ -779,41 +795,31 @@ def pair(repo: Repo) -> List[Ob]:
         obs.append(ok("PAIR", ce, "envelope-member-order", P, ce.node, "members of an absorbed envelope are listed at their tensor positions"))
     # Envelope.reorder: transposition and index swap in the same branch
     ro = repo.func("Envelope.reorder")
-    for br in [n for n in walk_no_nested(ro.node) if isinstance(n, ast.If) and "expansion_level" in src(n.test)]:
-        chain = [br]
-        while len(chain[-1].orelse) == 1 and isinstance(chain[-1].orelse[0], ast.If):
-            chain.append(chain[-1].orelse[0])
-        for c in chain:
-            tr = [x for b in c.body for x in [b] + list(walk_no_nested(b)) if isinstance(x, ast.Call) and (call_np(x) == "transpose" or (method_call(x) and method_call(x)[1] == "transpose"))]
-            if not tr:
-                continue
-            n_pairs += 1
-            lvl = "Vector" if "Vector" in src(c.test) else "Matrix"
-            perm = src(tr[0].args[-1]) if tr[0].args else ""
-            want = "(1, 0)" if lvl == "Vector" else "(1, 0, 3, 2)"
-            swap = any(isinstance(b, ast.Assign) and isinstance(b.targets[0], ast.Tuple) and {src(e) for e in b.targets[0].elts} == {"self.fock.index", "self.polarization.index"}
-                       and isinstance(b.value, ast.Tuple) and [src(e) for e in b.value.elts] == [src(e) for e in reversed(b.targets[0].elts)] for b in c.body)
-            good = perm.replace("[", "(").replace("]", ")") == want and swap
-            (obs.append(ok("PAIR", ro, f"transpose-swap@{lvl}", P, tr[0], "axes are exchanged and the two indices swapped in the same branch")) if good else
-             obs.append(bad("PAIR", ro, f"transpose-swap@{lvl}", P, tr[0], f"permutation {perm} / index swap present={swap}: tensor axes and member indices are not exchanged together (expected {want} with a swap)")))
-        break
+    for c in [n for n in walk_no_nested(ro.node) if isinstance(n, ast.If) and "expansion_level" in src(n.test)]:
+        tr = [x for b in c.body for x in [b] + list(walk_no_nested(b)) if isinstance(x, ast.Call) and (call_np(x) == "transpose" or (method_call(x) and method_call(x)[1] == "transpose"))]
+        if not tr:
+            continue
+        n_pairs += 1
+        lvl = "Vector" if "Vector" in src(c.test) else "Matrix"
+        perm = src(tr[0].args[-1]) if tr[0].args else ""
+        want = "(1, 0)" if lvl == "Vector" else "(1, 0, 3, 2)"
+        swap = any(isinstance(b, ast.Assign) and isinstance(b.targets[0], ast.Tuple) and {src(e) for e in b.targets[0].elts} == {"self.fock.index", "self.polarization.index"}
+                   and isinstance(b.value, ast.Tuple) and [src(e) for e in b.value.elts] == [src(e) for e in reversed(b.targets[0].elts)] for b in c.body)
+        good = perm.replace("[", "(").replace("]", ")") == want and swap
+        (obs.append(ok("PAIR", ro, f"transpose-swap@{lvl}", P, tr[0], "axes are exchanged and the two indices swapped in the same branch")) if good else
+         obs.append(bad("PAIR", ro, f"transpose-swap@{lvl}", P, tr[0], f"permutation {perm} / index swap present={swap}: tensor axes and member indices are not exchanged together (expected {want} with a swap)")))
     # ProductState.reorder: state_objs replaced by the list the string was generated for
     pr = repo.func("ProductState.reorder")
-    for br in [n for n in walk_no_nested(pr.node) if isinstance(n, ast.If) and "expansion_level" in src(n.test)]:
-        chain = [br]
-        while len(chain[-1].orelse) == 1 and isinstance(chain[-1].orelse[0], ast.If):
-            chain.append(chain[-1].orelse[0])
-        for c in chain:
-            gen = [x for b in c.body for x in [b] + list(walk_no_nested(b)) if isinstance(x, ast.Call) and (dotted(x.func) or "").split(".")[-1].startswith("reorder_")]
-            if not gen:
-                continue
-            n_pairs += 1
-            lvl = "Vector" if "Vector" in src(c.test) else "Matrix"
-            new = [b for b in c.body if isinstance(b, ast.Assign) and src(b.targets[0]) == "self.state_objs"]
-            good = bool(new) and len(gen[0].args) == 2 and src(new[0].value) == src(gen[0].args[1])
-            (obs.append(ok("PAIR", pr, f"order-update@{lvl}", P, gen[0], "member list is replaced by the order the tensor was permuted to")) if good else
-             obs.append(bad("PAIR", pr, f"order-update@{lvl}", P, gen[0], "the tensor is permuted to one order while self.state_objs is set to another (or not updated)")))
-        break
+    for c in [n for n in walk_no_nested(pr.node) if isinstance(n, ast.If) and "expansion_level" in src(n.test)]:
+        gen = [x for b in c.body for x in [b] + list(walk_no_nested(b)) if isinstance(x, ast.Call) and (dotted(x.func) or "").split(".")[-1].startswith("reorder_")]
+        if not gen:
+            continue
+        n_pairs += 1
+        lvl = "Vector" if "Vector" in src(c.test) else "Matrix"
+        new = [b for b in c.body if isinstance(b, ast.Assign) and src(b.targets[0]) == "self.state_objs"]
+        good = bool(new) and len(gen[0].args) == 2 and src(new[0].value) == src(gen[0].args[1])
+        (obs.append(ok("PAIR", pr, f"order-update@{lvl}", P, gen[0], "member list is replaced by the order the tensor was permuted to")) if good else
+         obs.append(bad("PAIR", pr, f"order-update@{lvl}", P, gen[0], "the tensor is permuted to one order while self.state_objs is set to another (or not updated)")))
     refresh = any(method_call(x) and method_call(x)[1] == "update_all_indices" for x in walk_no_nested(pr.node))
     (obs.append(ok("PAIR", pr, "indices-refreshed", ("C02", "C13"), pr.node, "indices are refreshed after reordering")) if refresh else
      obs.append(bad("PAIR", pr, "indices-refreshed", ("C02", "C13"), pr.node, "ProductState.reorder no longer refreshes the member indices")))
